@@ -24,6 +24,8 @@ def units(tier: str, use: tuple[str, ...], tok_vocabs: tuple[str, ...] = ("expr"
             us += tokspace.units(v, n)
     if "sub" in use:
         us += subspace.units(tier, cap=sub_cap if q else None)
+    if "xsub" in use:
+        us += subspace.xunits(tier, cap=sub_cap if q else None)
     if "asdl" in use:
         us += asdl.units((asdl_k if q and asdl_k else 3))
     if "lay" in use:
@@ -44,7 +46,7 @@ def cases(unit: tuple) -> Iterator[tuple[str, str]]:
     if k == "tok":
         for s, _ in tokspace.expand(unit):
             yield s, "exec"
-    elif k == "sub":
+    elif k in ("sub", "xsub"):
         for s in subspace.expand(unit):
             yield s, "exec"
     elif k == "asdl":
@@ -73,6 +75,8 @@ def describe(tier: str, use: tuple[str, ...], tok_vocabs: tuple[str, ...], tok_s
         parts.append("E-TOK " + ", ".join(f"{v} n<={max(2, TOK_BOUNDS[v][0 if q else 1] + (tok_shift if q else 0))}" for v in tok_vocabs))
     if "sub" in use:
         parts.append(f"E-SUB {len(subspace.CARRIERS)} carriers, |V|^n<={(sub_cap if q and sub_cap else subspace.CAP[tier])}")
+    if "xsub" in use:
+        parts.append(f"{len(subspace.XCARRIERS)} xonsh carriers (help chains, env targets, subprocess words, macro arguments)")
     if "asdl" in use:
         parts.append(f"E-ASDL paths k={(asdl_k if q and asdl_k else 3)}")
     if "lay" in use:
